@@ -31,9 +31,11 @@ Records (whitespace tokens):
   drcp <kind> <obj> <lits> :: steps -> the proof file is a valid DRCP certificate (Check/DrcpCheck.lean)
   drcpw <step> :: <text>           -> the real writer's line equals the model's rendering and reads back
   drcpr ok <step>|err :: <text>    -> the real reader's verdict / result equals the model's
+  asg <n> op*n :: <observations>   -> every observable of the real domain store after every operation equals Model/Assignments
   valsel <name> x <n v*n> <atom>   -> the decision of a value selector is in the model's support
   panic|nonterm|partial|bad|branchviolation …   -> FAIL (harness-side observation of a failure)
 -/
+import Driver.Asg
 import Pumpkin.Spec.Basic
 import Pumpkin.Check.Oracle
 import Pumpkin.Model.Predicate
@@ -728,6 +730,13 @@ def respond (st : St) (line : String) : St × Option String :=
             | none => (st, some "FAIL nlsearch unparsed")
           | _ => (st, some "FAIL nlsearch unparsed")
     | _ => (st, some "FAIL nlsearch unparsed")
+  | "asg" :: n :: rest =>
+    (match n.toNat? with
+     | none => (st, some "FAIL asg unparsed")
+     | some k =>
+       match Driver.AsgRun.pOps k rest with
+       | some (ops, ["::", real]) => (st, some (Driver.AsgRun.judge ops real))
+       | _ => (st, some "FAIL asg unparsed"))
   | "litsok" :: _ => (st, some "ok litsok")
   | "negok" :: _ => (st, some "ok negok")
   | "panic" :: _ | "nonterm" :: _ | "partial" :: _ | "bad" :: _ | "branchviolation" :: _ | "hang" :: _ =>
